@@ -67,7 +67,7 @@ func (b Bytes) TrimSpacesFromLeft() Bytes {
 			return b[i:]
 		}
 	}
-	return b
+	return b[len(b):]
 }
 
 func (b Bytes) CountSpacesFromLeft() int {
@@ -76,7 +76,7 @@ func (b Bytes) CountSpacesFromLeft() int {
 			return i
 		}
 	}
-	return 0
+	return len(b)
 }
 
 // OneOf checks current bytes sequence equal to at least one of specified strings.
